@@ -54,6 +54,38 @@ def run_replay(script: str, path: str) -> tuple[bool | None, str]:
     return None, out
 
 
+_kf_cache: dict = {}
+
+
+def check_known(kf: dict, r: dict, verifier) -> tuple[bool, str]:
+    """A failing obligation is covered by a known finding iff (a) the finding's committed witness still fails
+    natively on this tree and (b) with the finding's witness class excluded by precondition the very same
+    obligation is discharged (so a different defect in the same cell is still reported)."""
+    key = kf["id"]
+    if ("replay", key) not in _kf_cache:
+        path = os.path.join(VERIF, kf["replay"])
+        try:
+            p = subprocess.run([NATIVE_PY, path], capture_output=True, text=True, timeout=120,
+                               env={**os.environ, "PYTHONPATH": os.path.join(os.environ.get("PYVC_REPO", "/repo"), "python"), "PYTHONDONTWRITEBYTECODE": "1"})
+            _kf_cache[("replay", key)] = ("REPRODUCED" in p.stdout and "NOT-REPRODUCED" not in p.stdout, (p.stdout + p.stderr)[-800:])
+        except Exception as e:  # pragma: no cover
+            _kf_cache[("replay", key)] = (False, repr(e))
+    ok, out = _kf_cache[("replay", key)]
+    if not ok:
+        return False, f"known finding {key}: its recorded witness no longer fails natively, but the obligation is still not discharged\n{out}"
+    excl = kf.get("exclude")
+    if excl:
+        ck = ("excl", key, r["func"])
+        if ck not in _kf_cache:
+            wc = verifier.reg.witness_classes[excl]
+            res2, _ = verifier.verify_function(r["func"], extra_requires=[lambda c: wc(c, False)])
+            _kf_cache[ck] = {x.label + "|" + x.path: x.status for x in res2}
+        st = _kf_cache[ck].get(r["label"] + "|" + r["path"])
+        if st != PROVED:
+            return False, f"known finding {key}: with its witness class ({excl}) excluded the obligation is still not discharged ({st}): a different failure"
+    return True, ""
+
+
 def load_known() -> list[dict]:
     p = os.path.join(VERIF, "KNOWN_FINDINGS.json")
     if not os.path.exists(p):
@@ -83,7 +115,7 @@ def main() -> int:
     global _V
     repo = Repo()
     reg = build_registry(cfg["modules"])
-    timeout_ms = 20000 if a.tier == "quick" else 60000
+    timeout_ms = 10000 if a.tier == "quick" else 60000
     _V = Verifier(repo, reg, Spec, timeout_ms=timeout_ms)
     keys = expand_keys(repo, reg, pid)
     if a.only:
@@ -126,6 +158,8 @@ def main() -> int:
     # ---- classify
     os.makedirs(os.path.join(VERIF, "replays"), exist_ok=True)
     violations: list[str] = []
+    conc_cache: dict = {}
+    notes: list[str] = []
     known_seen: list[str] = []
     undecided: list[str] = []
     faults: list[str] = []
@@ -139,7 +173,7 @@ def main() -> int:
             faults.append(f"{r['label']}: {r['reason'][:300]}")
             continue
         solver_s += r.get("seconds", 0.0)
-        kf = next((f for f in known if f["obligation"] == r["label"]), None)
+        kf = next((f for f in known if r["label"] in f["obligations"]), None)
         if r["status"] == PROVED:
             n_obl += 1
             n_dis += 1
@@ -162,11 +196,29 @@ def main() -> int:
                 rout = f"replay builder failed: {e!r}"
         if script:
             reproduced, rout = run_replay(script, rpath)
-        if kf is not None and (reproduced is True or (reproduced is None and r["status"] == REFUTED)):
-            if kf.get("_seen") is None:
-                kf["_seen"] = True
-                known_seen.append(f"KNOWN-FINDING: property={pid} {kf['obligation']}: {kf['what']}")
-            continue
+        if reproduced is not True and kf is None:
+            # stage 2: bounded native search for a concrete failing input of this contract clause
+            ck = (r["func"], r["clause"])
+            if ck not in conc_cache:
+                cscript = ("import subprocess, sys\n"
+                           f"sys.exit(subprocess.call([sys.executable, '/verif/replay/concretise.py', {r['func']!r}, {r['clause']!r}, '6000']))\n")
+                conc_cache[ck] = run_replay(cscript, rpath)
+            c_ok, c_out = conc_cache[ck]
+            if c_ok is True:
+                reproduced, rout, script = True, c_out, "concretise"
+                with open(rpath, "w") as f:
+                    f.write("import subprocess, sys\n"
+                            f"# obligation {r['label']} (path {r['path'][-120:]}) was not discharged ({r['status']}: {r['reason']}); bounded native search found:\n"
+                            + "".join("# " + ln + "\n" for ln in c_out.strip().splitlines()[-6:])
+                            + f"sys.exit(subprocess.call([sys.executable, '/verif/replay/concretise.py', {r['func']!r}, {r['clause']!r}, '6000']))\n")
+        if kf is not None:
+            ok, why = check_known(kf, r, _V)
+            if ok:
+                if kf.get("_seen") is None:
+                    kf["_seen"] = True
+                    known_seen.append(f"KNOWN-FINDING: property={pid} {kf['id']} {r['label']}: {kf['what']}")
+                continue
+            rout = (rout + "\n" + why)[-3000:]
         if r["status"] == UNKNOWN and r["reason"] in ("timeout", "canceled") and reproduced is not True:
             undecided.append(f"{r['label']} [{r['path'][-80:]}]: solver {r['reason']}")
             continue
@@ -185,9 +237,9 @@ def main() -> int:
     for kf in known:
         if kf.get("_seen") is None and not kf.get("optional"):
             # the finding no longer shows: not an alarm, just note it
-            known_seen.append(f"NOTE: known finding {kf['obligation']} did not show on this tree")
+            notes.append(f"NOTE: known finding {kf['id']} did not show on this tree")
 
-    for line in known_seen:
+    for line in known_seen + notes:
         print(line)
     for line in violations:
         print(line)
